@@ -2,7 +2,7 @@ from registry import reg, Check
 
 reg(Check(
     "C09", "c09",
-    coq_targets=["CTree/CTreeCheck.vo", "Props/C09.vo"],
+    coq_targets=["CTree/CTreeCheck.vo", "CTree/CTreeExamples.vo", "Props/C09.vo"],
     assumptions=[
         "values stored in the tree are non-nil (a nil-valued leaf is indistinguishable from an empty node in ctree)",
         "single goroutine (C10 covers concurrency)",
